@@ -351,6 +351,44 @@ fn record_fault(rep: &mut Report, n: usize, recipe: &Recipe, act: &Act, fault: O
     record(rep, n, recipe, &[], act, fault, p, stage);
 }
 
+/// The destructor-panic space of C05 re-judged for another property: only "a destructor ran on something
+/// that was not a live element" (double drop / dead element reachable) is reported, under `prop`.
+/// C04 ("no operation destroys a slot that holds no live element") and C12 ("destroys the rest exactly
+/// once") are stated for all runs, including those in which a destructor panics.
+pub fn destroyed_twice_space<const N: usize>(prop: &str, sp: &Space, o: &Opts, rep: &mut Report, filter: &dyn Fn(&Act) -> bool) {
+    register_layouts::<N>(sp);
+    for (i, st) in sp.states.iter().enumerate() {
+        if !o.mine(i) {
+            continue;
+        }
+        for (act, kinds) in fault_alphabet("C05", N, st.len) {
+            if !filter(&act) {
+                continue;
+            }
+            let base = transition::<N>(&st.recipe, &[], &act, None);
+            for kind in kinds {
+                for k in 1..=base.rec.counts[kind as usize] {
+                    let out = fault_case::<N>("C05", &st.recipe, &act, Some((kind, k)));
+                    rep.transitions += 1;
+                    rep.evaluations += 1;
+                    if !out.fired {
+                        continue;
+                    }
+                    rep.validated += 1;
+                    rep.nontrivial += 1;
+                    rep.count("runs_with_a_panicking_destructor", 1);
+                    for (p, stage) in &out.problems {
+                        if matches!(p.kind, PKind::BadEvent | PKind::DeadReachable | PKind::Duplicate) {
+                            record(rep, N, &st.recipe, &[], &act, Some((kind, k)), p, stage);
+                        }
+                    }
+                }
+            }
+        }
+    }
+    let _ = prop;
+}
+
 pub fn fault_check<const N: usize>(prop: &str, o: &Opts, rep: &mut Report) {
     let limits = Limits::default();
     rep.notes.push(format!("N={} {}", N, calib::<N>().note));
